@@ -9,8 +9,9 @@ from .pyast import Unrecognised, clean, cstr, unparse
 
 
 class Ctx:
-    def __init__(self, attr_vars=(), enum_prefixes=(), identity_calls=()):
-        self.attr_vars = set(attr_vars)          # source texts treated as input variables, e.g. "self.prefix"
+    def __init__(self, attr_vars=(), enum_prefixes=(), identity_calls=(), attr_targets=()):
+        self.attr_vars = set(attr_vars) | set(attr_targets)  # source texts treated as variables, e.g. "self.prefix"
+        self.attr_targets = set(attr_targets)    # attributes the method may assign / append to, e.g. "self.negative_option_strings"
         self.enum_prefixes = tuple(enum_prefixes)  # "DashVariant." ... : enum members become string constants
         self.identity_calls = set(identity_calls)  # callables that return their argument, e.g. "DashVariant", "list"
         self.local_defs = {}
@@ -106,6 +107,30 @@ def expr(n, c: Ctx, subst=None) -> str:
                 return f"(ESplit {expr(f.value, c, subst)} {cstr(one_char(n.args[0], 'split'))})"
             if m == "join" and len(n.args) == 1 and isinstance(f.value, ast.Constant) and isinstance(f.value.value, str):
                 return f"(EJoin {cstr(f.value.value)} {expr(n.args[0], c, subst)})"
+    # ---- second group (BooleanOptionalAction.__init__) ----
+    if isinstance(n, ast.Constant) and n.value is None:
+        return "ENone"
+    if isinstance(n, ast.Compare) and len(n.ops) == 1:
+        op, right = n.ops[0], n.comparators[0]
+        if isinstance(op, (ast.Is, ast.IsNot)) and isinstance(right, ast.Constant) and right.value is None:
+            t = f"(EIsNone {expr(n.left, c, subst)})"
+            return t if isinstance(op, ast.Is) else f"(ENot {t})"
+        if isinstance(op, ast.NotIn):
+            return f"(ENot (EIn {expr(n.left, c, subst)} {expr(right, c, subst)}))"
+        if isinstance(op, ast.Gt):
+            return f"(EGt {expr(n.left, c, subst)} {expr(right, c, subst)})"
+    if isinstance(n, ast.BinOp):
+        if isinstance(n.op, ast.Add):
+            return f"(EAdd {expr(n.left, c, subst)} {expr(n.right, c, subst)})"
+        if isinstance(n.op, ast.Sub):
+            return f"(ESub {expr(n.left, c, subst)} {expr(n.right, c, subst)})"
+        if isinstance(n.op, ast.Mult):
+            return f"(ERepeat {cstr(one_char(n.left, 'repetition'))} {expr(n.right, c, subst)})"
+    if isinstance(n, ast.Call) and isinstance(n.func, ast.Attribute) and not n.keywords and len(n.args) == 1:
+        if n.func.attr == "lstrip":
+            return f"(ELstrip {expr(n.func.value, c, subst)} {cstr(one_char(n.args[0], 'lstrip'))})"
+        if n.func.attr == "endswith" and isinstance(n.args[0], ast.Constant) and isinstance(n.args[0].value, str):
+            return f"(EEndswith {expr(n.func.value, c, subst)} {cstr(n.args[0].value)})"
     raise Unrecognised(f"expression outside the MiniPy fragment: {src[:100]}")
 
 
@@ -161,6 +186,35 @@ def stmt(s, c: Ctx, subst=None) -> list[str]:
                     raise Unrecognised(f"call of local def {f.id}: argument {unparse(a)} is not a name or constant")
                 new[p] = expr(a, c, subst)
             return block(d.body, c, new)
+    # ---- second group (BooleanOptionalAction.__init__) ----
+    if isinstance(s, (ast.Assign, ast.AnnAssign)) and getattr(s, "value", None) is not None:
+        tgts = s.targets if isinstance(s, ast.Assign) else [s.target]
+        if len(tgts) == 1 and isinstance(tgts[0], ast.Attribute) and unparse(tgts[0]) in c.attr_targets:
+            c.note(unparse(tgts[0]))
+            return [f"SAssign {cstr(unparse(tgts[0]))} {expr(s.value, c, subst)}"]
+        if isinstance(s, ast.Assign) and len(tgts) == 1 and isinstance(tgts[0], ast.Tuple) and len(tgts[0].elts) == 3:
+            a, m, b = tgts[0].elts
+            if isinstance(a, ast.Name) and isinstance(b, ast.Name) and isinstance(m, ast.Starred) and isinstance(m.value, ast.Name) \
+                    and not ({a.id, m.value.id, b.id} & set(subst)):
+                for x in (a.id, m.value.id, b.id):
+                    c.note(x)
+                return [f"SUnpack3 {cstr(a.id)} {cstr(m.value.id)} {cstr(b.id)} {expr(s.value, c, subst)}"]
+    if isinstance(s, ast.Assert) and s.msg is None:
+        return [f"SAssert {expr(s.test, c, subst)}"]
+    if isinstance(s, ast.Raise) and s.cause is None and isinstance(s.exc, ast.Call) and isinstance(s.exc.func, ast.Name) \
+            and not s.exc.keywords and all(isinstance(a, (ast.Constant, ast.JoinedStr)) for a in s.exc.args):
+        for a in s.exc.args:  # the message is not modelled, but it must be a pure string expression of the fragment's variables
+            for v in (a.values if isinstance(a, ast.JoinedStr) else []):
+                if isinstance(v, ast.FormattedValue) and not isinstance(v.value, (ast.Name, ast.Constant)):
+                    raise Unrecognised(f"raise: message part {unparse(v)}")
+        return [f"SRaise {cstr(s.exc.func.id)}"]
+    if isinstance(s, ast.Expr) and isinstance(s.value, ast.Call) and isinstance(s.value.func, ast.Attribute) \
+            and unparse(s.value.func.value) in c.attr_targets and len(s.value.args) == 1 and not s.value.keywords:
+        tgt = unparse(s.value.func.value)
+        if s.value.func.attr == "append":
+            return [f"SAppend {cstr(tgt)} {expr(s.value.args[0], c, subst)}"]
+        if s.value.func.attr == "extend":
+            return [f"SExtend {cstr(tgt)} {expr(s.value.args[0], c, subst)}"]
     raise Unrecognised(f"statement outside the MiniPy fragment: {unparse(s)[:100]}")
 
 
